@@ -178,6 +178,22 @@ def _run_pred(ctx, spec, rng):
         r = int(rng.integers(1, 3))
         a_ops = [gen.rc(rng, din, din) for _ in range(r)]
         b_ops = [gen.rc(rng, din, din) for _ in range(r)]
+        variant = (spec[2] // 9) % 3
+        if variant:
+            # structured instead of generic non-Hermiticity: a completely positive map plus (1) i c Tr(X) 1, whose Choi matrix is non-Hermitian on
+            # its DIAGONAL only, or (2) one term sqrt(c)|k><i| X (sqrt(c)|l><j|)^dagger, which changes a single off-diagonal entry of the Choi matrix
+            ks = [gen.rc(rng, din, din) for _ in range(r)]
+            c_ = float(rng.choice([0.05, 0.2, 1.0]))
+            if variant == 1:
+                units = [np.outer(np.eye(din)[a_], np.eye(din)[b_]).astype(complex) for a_ in range(din) for b_ in range(din)]
+                a_ops = ks + [np.sqrt(c_) * e_ for e_ in units]
+                b_ops = ks + [-1j * np.sqrt(c_) * e_ for e_ in units]
+            else:
+                i_, j_, k_, l_ = (int(v) for v in rng.integers(0, din, size=4))
+                if (i_, k_) == (j_, l_):
+                    l_ = (l_ + 1) % din
+                a_ops = ks + [np.sqrt(c_) * np.outer(np.eye(din)[k_], np.eye(din)[i_]).astype(complex)]
+                b_ops = ks + [np.sqrt(c_) * np.outer(np.eye(din)[l_], np.eye(din)[j_]).astype(complex)]
         j = ref.choi_of(a_ops, b_ops, din)
         if float(np.abs(j - j.conj().T).max()) < 1e-2:
             return ctx.note_inconclusive("not_hp-margin")
